@@ -235,7 +235,7 @@ func c16SeqUnit(unit string, env *fw.Env) *fw.Result {
 			d := filepath.Join(dir, fmt.Sprintf("db-%v", readOnly))
 			os.RemoveAll(d)
 			s := vsched.Run(vsched.Config{Bound: 0, NoEnv: true, MaxSteps: 3_000_000}, func() {
-				r, err := newEngRun(d, EngCfg{"c16", 32 << 20, 2, 2})
+				r, err := newEngRun(d, EngCfg{"c16", 32 << 20, 2, 2, 0})
 				if err != nil {
 					return
 				}
